@@ -19,6 +19,7 @@ import (
 
 func TestSim(t *testing.T) {
 	simrt.Main(t, map[string]simrt.Prop{
+		"C14bal": {Run: runC14bal},
 		"C01": {Run: runC01},
 		"C09": {Run: runC09},
 		"C05": {Run: runC05, Opt: simrt.Options{MaxSteps: 60000, StuckClause: "C05.deadlock", MaxStepsClause: "C05.livelock"}},
